@@ -31,10 +31,13 @@ type World struct {
 // FileSpec is one name on the simulated disk.
 type FileSpec struct {
 	Path string `json:"path"` // absolute, or relative to Cwd
-	// Kind: "file", "dir", "eacces" (exists, open fails), "statfail" (stat fails with EIO)
-	Kind string   `json:"kind"`
-	Data string   `json:"data"` // contents (Go string, may hold arbitrary bytes)
-	Plan ReadPlan `json:"plan"`
+	// Kind: "file", "symlink" (a link to a regular file with these contents), "dir", "eacces" (exists,
+	// open fails), "statfail" (stat fails with EIO)
+	// StatSize, if not nil, is the size Stat reports (a FIFO or /dev/stdin says 0, a growing file an old size)
+	StatSize *int64   `json:"stat_size,omitempty"`
+	Kind     string   `json:"kind"`
+	Data     string   `json:"data"` // contents (Go string, may hold arbitrary bytes)
+	Plan     ReadPlan `json:"plan"`
 }
 
 // ReadPlan decides how the bytes of one file are delivered to the program.
